@@ -1,4 +1,4 @@
-import Pcore.Model.DescribeCallable
+import Pcore.Model.DescribeText
 set_option linter.unusedSimpArgs false
 /-!
   The argument-error description of a call that fits none of a set of SIGNATURES (property C19):
@@ -14,7 +14,7 @@ set_option linter.unusedSimpArgs false
         *IntegerType reaches IntegerType.IsAssignable, which dereferences it: `SFault.nilSize`; `eTypes[ex]` with `eLast = -1`:
         `SFault.paramIndex`; `eNames[ex]`: `SFault.nameIndex`; the first parameter whose description is not empty ends the loop)
     describeSignatureBlock       → `sigBlock` (aBlock == nil: a block type that does not accept Undef is a missing required block; a block
-        given: no block type → unexpectedBlock, else `describe(eBlock, aBlock.Signature(), path + block 'block')` = `describeBlk`)
+        given: no block type → unexpectedBlock, else `describe(eBlock, aBlock.Signature(), path + block 'block')`: the generic `describe` on Callable terms)
     describeSignatures           → `describeSignatures`: argument errors per signature; block errors unless every signature has argument
         errors (all have block errors: they replace the argument errors; some: they fill the signatures without argument errors);
         with more than one signature in error and ONE argument that is a Struct, only the single signature whose first parameter is
@@ -27,7 +27,7 @@ open Pcore.Lat
 structure Sig where
   params : Option (List Ty × Rng)     -- ParametersType(): the types and the size of the parameter tuple
   names : List String                 -- ParameterNames()
-  block : Option Blk                  -- BlockType(): Callable[…] or Optional[Callable[…]]
+  block : Option Ty                   -- BlockType(): Callable[…] or Optional[Callable[…]]
   deriving Repr, Inhabited
 
 inductive SFault where
@@ -85,16 +85,16 @@ def sigArguments (sg : Sig) (args : Ty) (path : Path) : ARes :=
       else .ok [.countMismatch path eSize aSize]
 
 /-- `describeSignatureBlock(signature, aBlock, path)` -/
-def sigBlock (sg : Sig) (blk : Option CT) (path : Path) : Res :=
+def sigBlock (sg : Sig) (blk : Option Ty) (path : Path) : Res :=
   match blk with
   | none =>
       (match sg.block with
-       | some (false, _) => .ok [.missingRequiredBlock path]        -- a block type that does not accept Undef
-       | _ => .ok [])
+       | none => .ok []
+       | some eb => if asg cfg sfh eb .undef then .ok [] else .ok [.missingRequiredBlock path])
   | some ab =>
       (match sg.block with
        | none => .ok [.unexpectedBlock path]
-       | some eb => describeBlk cfg sfh eb ab (path ++ [⟨.block, "block"⟩]))
+       | some eb => describe cfg sfh eb ab (path ++ [⟨.block, "block"⟩]))
 
 def sigPath (ix : Nat) : Path := [PE.nat .signature ix]
 
@@ -109,7 +109,7 @@ def sigAllArgs (args : Ty) : List Sig → Nat → Except SFault (List (List Mism
       | .error k => .error k
       | .ok more => .ok (ae :: more)
 
-def sigAllBlocks (blk : Option CT) : List Sig → Nat → Except SFault (List (List Mismatch))
+def sigAllBlocks (blk : Option Ty) : List Sig → Nat → Except SFault (List (List Mismatch))
   | [], _ => .ok []
   | sg :: rest, ix =>
     match sigBlock cfg sfh sg blk (sigPath ix) with
@@ -164,7 +164,7 @@ def sigFinish (errorArrays : List (List Mismatch)) : SRes :=
   | .ok _ => .listing (errorArrays.map fun ea => ea.map fun e => chopPath e 0)
 
 /-- `describeSignatures(signatures, argsTuple, block)` -/
-def describeSignatures (sigs : List Sig) (args : Ty) (blk : Option CT) : SRes :=
+def describeSignatures (sigs : List Sig) (args : Ty) (blk : Option Ty) : SRes :=
   match sigAllArgs cfg sfh args sigs 0 with
   | .error k => .fault k
   | .ok argErrs =>
